@@ -3,8 +3,10 @@
 pid=$1; patch=$2; tier=${3:-quick}
 git -C /repo diff --quiet || { echo "/repo has uncommitted changes"; exit 2; }
 git -C /repo apply "$patch" || exit 2
+cp /verif/evidence/$pid.json /tmp/evidence.$pid.keep 2>/dev/null   # the evidence of a run on a changed tree is not kept
 (cd /verif && ./check $pid --tier $tier 2>&1 | grep -E "VIOLATION|KNOWN|^$pid:" | cut -c1-300)
 st=$?
 git -C /repo checkout -q -- .
+[ -f /tmp/evidence.$pid.keep ] && mv /tmp/evidence.$pid.keep /verif/evidence/$pid.json
 find /repo/src -name __pycache__ -prune -exec rm -rf {} + 2>/dev/null
 exit 0
